@@ -776,15 +776,13 @@ class DynamoOMPParallelLoopTrans(OMPParallelLoopTrans):
                 f"must be a LFRicLoop but got '{type(node).__name__}'")
 
         # If the loop is not already coloured then check whether or not
-        # it should be. If the field space is discontinuous (including
-        # any_discontinuous_space) then we don't need to worry about
-        # colouring.
-        const = LFRicConstants()
-        if node.field_space.orig_name not in const.VALID_DISCONTINUOUS_NAMES:
-            if node.loop_type != 'colour' and node.has_inc_arg():
-                raise TransformationError(
-                    f"Error in {self.name} transformation. The kernel has an "
-                    f"argument with INC access. Colouring is required.")
+        # it should be. (The space of the loop's iteration-space argument
+        # does not decide this: a kernel that writes to an operator on a
+        # discontinuous space may also increment a continuous field.)
+        if node.loop_type != 'colour' and node.has_inc_arg():
+            raise TransformationError(
+                f"Error in {self.name} transformation. The kernel has an "
+                f"argument with INC access. Colouring is required.")
         # As this is a domain-specific loop, we don't perform general
         # dependence analysis because it is too conservative and doesn't
         # account for the special steps taken for such a loop at code-
